@@ -18,10 +18,11 @@ import (
 	"math/big"
 
 	"github.com/dappledger/AnnChain/eth/common"
+	"github.com/dappledger/AnnChain/eth/core/vm"
 )
 
 var (
-	AdminTo   = common.HexToAddress("0x02000000") //contract addr;
+	AdminTo   = vm.AdminContractAddr //contract addr;
 	AdminCode = common.Hex2Bytes("60806040526004361061003b576000357c010000000000000000000000000000000000000000000000000000000090048063ba9c716e14610040575b600080fd5b34801561004c57600080fd5b506101066004803603602081101561006357600080fd5b810190808035906020019064010000000081111561008057600080fd5b82018360208201111561009257600080fd5b803590602001918460018302840111640100000000831117156100b457600080fd5b91908080601f016020809104026020016040519081016040528093929190818152602001838380828437600081840152601f19601f820116905080830192505050505050509192919290505050610108565b005b60603382604051602001808373ffffffffffffffffffffffffffffffffffffffff1673ffffffffffffffffffffffffffffffffffffffff166c0100000000000000000000000002815260140182805190602001908083835b6020831015156101855780518252602082019150602081019050602083039250610160565b6001836020036101000a0380198251168184511680821785525050505050509050019250505060405160208183030381529060405290506000602082510190506000808284600060fe600019f18015156101de57600080fd5b5050505056fea165627a7a72305820de66ac7f0ed7f9f6d566ddabc3faa2fb4abe3b21b05fd4bbb8b178cac78e7d680029")
 )
 
